@@ -27,13 +27,29 @@ def ensure_worktree():
     else:
         sh(['git', '-C', WT, 'checkout', '--detach', sh(['git', '-C', '/repo', 'rev-parse', 'HEAD']).stdout.strip()])
         sh(['git', '-C', WT, 'checkout', '--', '.'])
+    ensure_worktree_build()
+
+
+def ensure_worktree_build():
     if not (os.path.exists(os.path.join(WT, '_build', 'build.ninja')) and os.path.exists(os.path.join(WT, '_build', 'CMakeCache.txt'))):
         shutil.rmtree(os.path.join(WT, '_build'), ignore_errors=True)
-        p = sh('cmake -G Ninja -S %s -B %s/_build -DCMAKE_BUILD_TYPE=RelWithDebInfo -DCMAKE_CXX_FLAGS=-Wno-error' % (WT, WT))
+        p = sh('cmake -G Ninja -S %s -B %s/_build -DCMAKE_BUILD_TYPE=RelWithDebInfo -DCMAKE_CXX_FLAGS=-Wno-error' % (WT, WT), cwd='/tmp')
         assert p.returncode == 0, p.stdout[-2000:]
 
 
+def build_dir_sane():
+    try:
+        txt = open(os.path.join(WT, '_build', 'build.ninja')).read(20000)
+    except OSError:
+        return False
+    return ('cmake_ninja_workdir = %s/_build/' % WT) in txt
+
+
 def build_and_test(run_tests=True):
+    if not build_dir_sane():
+        # (seen once: the generated build files pointed at another source tree) -> configure from scratch
+        shutil.rmtree(os.path.join(WT, '_build'), ignore_errors=True)
+        ensure_worktree_build()
     p = sh('cmake --build %s/_build -- -k 0 -j12' % WT)
     # the only tolerated build failure is the cli_fetch_dir test target (broken on the pristine tree too)
     failed = set(re.findall(r'FAILED: (\S+)', p.stdout))
